@@ -37,6 +37,13 @@ def load_findings():
         return json.load(fh).get("findings", [])
 
 
+def model_deviations(names):
+    p = os.path.join(VERIF, "model_deviations.json")
+    with open(p) as fh:
+        d = json.load(fh)
+    return {n: bool(d.get(n, False)) for n in names}
+
+
 def match_finding(findings, pid, vio):
     for f in findings:
         if f.get("property") != pid or f.get("status") != "open":
